@@ -26,6 +26,7 @@ type Obligation struct {
 	Expect string // "" normal; "sat" for vacuity canaries (must be satisfiable)
 	Values []string // terms whose model values are requested on sat
 	replayed bool
+	FC     *FnCtx // the function context that generated it (for counterexample replay)
 }
 
 type loopInfo struct {
@@ -89,7 +90,7 @@ func (fc *FnCtx) oblig(kind, text string, goal Term, pos token.Pos) *Obligation 
 	fc.counts[base] = n + 1
 	name := fmt.Sprintf("%s#%d", base, n)
 	g := implies(fc.reach[fc.cur], goal)
-	o := &Obligation{Name: name, Kind: kind, Fn: fc.eng.shortFn(fc.fn), Goal: g, Pos: fc.vc.sc.pos(), VC: fc.vc}
+	o := &Obligation{Name: name, Kind: kind, Fn: fc.eng.shortFn(fc.fn), Goal: g, Pos: fc.vc.sc.pos(), VC: fc.vc, FC: fc}
 	if pos.IsValid() {
 		p := fc.eng.fset.Position(pos)
 		o.Src = fmt.Sprintf("%s:%d", p.Filename, p.Line)
